@@ -11,14 +11,15 @@ import (
 
 // VerifH2connStream is the serve-loop view of one stream in sc.streams.
 type VerifH2connStream struct {
-	State    string // Open | HalfClosedRemote | HalfClosedLocal | ...
-	Inflow   int32  // st.inflow.n
-	Flow     int32  // st.flow.n
-	HasBody  bool
-	BodyLen  int  // bytes buffered in the body pipe
-	BodyDone bool // pipe closed (any error incl. EOF)
-	QLen     int  // frames queued in the write scheduler for this stream
-	HeadData int  // len(p) of the head if it is a DATA write, else -1
+	State     string // Open | HalfClosedRemote | HalfClosedLocal | ...
+	Inflow    int32  // st.inflow.n
+	Flow      int32  // st.flow.n
+	HasBody   bool
+	BodyLen   int   // bytes buffered in the body pipe
+	BodyBytes int64 // st.bodyBytes: octets ever written into the body pipe
+	BodyDone  bool  // pipe closed (any error incl. EOF)
+	QLen      int   // frames queued in the write scheduler for this stream
+	HeadData  int   // len(p) of the head if it is a DATA write, else -1
 }
 
 // VerifH2connSnap is one consistent snapshot of the connection taken on the serve goroutine.
@@ -91,7 +92,7 @@ func (vc *VerifH2connConn) Snapshot() (snap VerifH2connSnap, ok bool) {
 			Streams: make(map[uint32]VerifH2connStream, len(sc.streams)),
 		}
 		for id, st := range sc.streams {
-			v := VerifH2connStream{State: st.state.String(), Inflow: st.inflow.n, Flow: st.flow.n, HeadData: -1}
+			v := VerifH2connStream{State: st.state.String(), Inflow: st.inflow.n, Flow: st.flow.n, HeadData: -1, BodyBytes: st.bodyBytes}
 			if st.body != nil {
 				v.HasBody = true
 				v.BodyLen, v.BodyDone = st.body.VerifH2connState()
